@@ -182,7 +182,9 @@ def check_name_derivation(repo):
     for (mod, qn), expected in _EXPECTED_NAME_FUNCS.items():
         f = repo.func(mod, qn)
         got = _body_text(f.node)
-        expected = _alpha(ast.parse(expected).body,
+        from .model import normalise_tree
+        expected = _alpha(normalise_tree(ast.parse(expected),
+                                         whole=True).body,
                           {a.arg for a in f.node.args.args})
         if got != expected:
             raise AnalysisError(
